@@ -178,8 +178,8 @@ Example C03_nonvacuous :
   /\ out (client_init None None [IAnswer (AError (-32603) msg_pv)] EndSilence true) = Retryable (-32603)
   /\ out (client_init None None [IAnswer (AResult (Some JNonStr) true)] EndSilence true) = Invalid
   /\ out (client_init None None [INoise; INoise] EndSilence true) = Timeout
-  /\ bp_enabled (track (bp_init None) (Ok v618)) = false
-  /\ bp_enabled (track (bp_init None) (Ok v326)) = true
+  /\ bp_version (track (bp_init None) (Ok v618)) = Some v618
+  /\ track (bp_init None) VersionMismatch = bp_init None
   /\ c03_ok (obs_of_run (Some [v326; v618]) None [IAnswer (well_formed_answer v618)] (bp_init None)
               (client_init (Some [v326; v618]) None [IAnswer (well_formed_answer v618)] EndSilence true)) = true.
 Proof. repeat split; try reflexivity; discriminate. Qed.
